@@ -104,7 +104,7 @@ NameCases == {[k |-> "name", d |-> d, n |-> SMAttrs[i]] : d \in Decorators, i \i
              \cup {[k |-> "name", d |-> d, n |-> n] : d \in Decorators, n \in SafeNames}
 \* alias / outside: a fresh state object; *_reuse: a state object that was first bound legitimately in a StateMachine
 \* and is then bound again, under another name in another StateMachine / in a class that is not a StateMachine
-OtherCases == {[k |-> kk, d |-> d] : kk \in {"alias", "outside", "alias_reuse", "outside_reuse", "call", "call_on_class"},
+OtherCases == {[k |-> kk, d |-> d] : kk \in {"alias", "outside", "alias_reuse", "outside_reuse", "call", "call_on_class", "mangled"},
                                     d \in Decorators}
 AllCases == HierCases \cup SigCases \cup NameCases \cup OtherCases
 
@@ -117,7 +117,7 @@ Expected(c) ==
                           descr |-> Descriptions(c.h, c.cls)]
       [] c.k = "sig" -> [accepted |-> SigAccepted(c.ps)]
       [] c.k = "name" -> [accepted |-> ~InAttrs(c.n)]
-      [] c.k \in {"alias", "alias_reuse"} -> [error |-> "InvalidStateName"]
+      [] c.k \in {"alias", "alias_reuse", "mangled"} -> [error |-> "InvalidStateName"]
       [] c.k \in {"outside", "outside_reuse"} -> [error |-> "TypeError"]
       [] c.k \in {"call", "call_on_class"} -> [error |-> "IllegalCallError"]
 
